@@ -12,6 +12,7 @@
 # define _GNU_SOURCE
 #endif
 #include <errno.h>
+#include <sys/resource.h>
 #include <fcntl.h>
 #include <ftw.h>
 #include <limits.h>
@@ -975,6 +976,14 @@ static void h_c_ambient(const char *cmd, cfg_t *cfg)
 
 		if (!h_bad)
 			h_failat = v > 0 ? v : 0;
+	} else if (!strcmp(cmd, "stacklimit")) {	/* stacklimit KB: RLIMIT_STACK of this (forked) scenario process */
+		long v = h_long(1);
+		struct rlimit rl;
+
+		if (!h_bad && v > 0 && getrlimit(RLIMIT_STACK, &rl) == 0) {
+			rl.rlim_cur = (rlim_t)v * 1024;
+			ok = setrlimit(RLIMIT_STACK, &rl) == 0;
+		}
 	} else if (!strcmp(cmd, "cberror")) {	/* a refusing callback reports through cfg_error() first (library only) */
 		long v = h_long(1);
 
@@ -1793,7 +1802,7 @@ static const struct h_cmd {
 } h_cmds[] = {
 	{ "env", h_c_ambient, 0, 3, 3 }, { "envroot", h_c_ambient, 0, 2, 2 }, { "unsetenv", h_c_ambient, 0, 2, 2 }, { "errno", h_c_ambient, 0, 2, 2 },
 	{ "file", h_c_ambient, 0, 3, 4 }, { "passwd", h_c_ambient, 0, 3, 3 }, { "passwd_self", h_c_ambient, 0, 2, 2 },
-	{ "failat", h_c_ambient, 0, 2, 2 }, { "cberror", h_c_ambient, 0, 2, 2 },
+	{ "failat", h_c_ambient, 0, 2, 2 }, { "cberror", h_c_ambient, 0, 2, 2 }, { "stacklimit", h_c_ambient, 0, 2, 2 },
 	{ "init", h_c_init, 0, 4, 4 }, { "poison", h_c_poison, 0, 2, 2 }, { "free", h_c_free, 1, 2, 2 },
 	{ "searchpath", h_c_parse, 1, 3, 3 }, { "parse_buf", h_c_parse, 1, 3, 3 },
 	{ "parse_file", h_c_parse, 1, 3, 3 }, { "parse_fp", h_c_parse, 1, 3, 3 }, { "parse_fpfail", h_c_parse_fpfail, 1, 3, 3 }, { "errfunc", h_c_errfunc, 1, 3, 3 }, { "lex", h_c_lex, 0, 2, 2 },
